@@ -22,6 +22,8 @@ pub enum Intent {
     /// plain transfer of an asset to `to`
     Transfer { asset: AssetInfo, to: String, amount: u128 },
     Allowance,
+    /// a holder burns its own LP tokens directly at the LP token contract (no pair involved)
+    BurnLp { pair: usize, amount: u128 },
     Other,
 }
 
@@ -74,6 +76,10 @@ pub fn classify(w: &World, st: &Step) -> Intent {
             }
             Cw20ExecuteMsg::Transfer { recipient, amount } => Intent::Transfer { asset: AssetInfo::Token { contract_addr: token.clone() }, to: recipient.clone(), amount: amount.u128() },
             Cw20ExecuteMsg::IncreaseAllowance { .. } | Cw20ExecuteMsg::DecreaseAllowance { .. } => Intent::Allowance,
+            Cw20ExecuteMsg::Burn { amount } => match pair_by_lp(w, token) {
+                Some(p) => Intent::BurnLp { pair: p, amount: amount.u128() },
+                None => Intent::Other,
+            },
             _ => Intent::Other,
         },
         Call::Bank { to, coins } => {
@@ -125,6 +131,7 @@ pub fn step_summary(w: &World, st: &Step, out: &Outcome) -> Value {
         ),
         Intent::Transfer { asset, to, amount } => format!("transfer {}{} to {}", amount, asset, to),
         Intent::Allowance => "change allowance".to_string(),
+        Intent::BurnLp { pair, amount } => format!("burn {} LP of pair{} directly at the LP token", amount, pair),
         Intent::Other => format!("{:?}", st.call).chars().take(200).collect(),
     };
     json!({"sender": st.sender, "what": what, "funds": st.funds.iter().map(|c| c.to_string()).collect::<Vec<_>>(),
